@@ -15,8 +15,14 @@ package antispam
 // With rules, the first matching rule decides: no rule is evaluated after one has
 // matched (a later, stricter rule must not override it).
 
+// (RuleSet.Match requires prepared rules - Rule.Match panics otherwise: the exceptions
+// handed to NewAntispammer are prepared by fd when the pipeline is set up.  Mode <= 2:
+// one of matchrule.ModePrefix / ModeContains / ModeSuffix, written as a number because
+// the clause is also evaluated in package pipeline, which does not import matchrule.)
+
 //@ func (*Antispammer).IsSpam
 //@   option check-nil yes
+//@   requires forall x, k :: 0 <= x && x < len(a.exceptions) && 0 <= k && k < len(a.exceptions[x].Rules) ==> a.exceptions[x].Rules[k].prepared && a.exceptions[x].Rules[k].maxValueSize >= 0 && 0 <= a.exceptions[x].Rules[k].Mode && a.exceptions[x].Rules[k].Mode <= 2
 //@   ghost g_exc bool = false
 //@   ghost g_incs int = 0
 //@   ensures old(a.rules == nil && a.threshold == -1) ==> !result
